@@ -120,12 +120,20 @@ static void optrt(void) {
   free(buf);
 }
 
+static void quiet_log(coap_log_t level, const char *message) { (void)level; (void)message; }
+
 int main(void) {
-  coap_set_log_level(COAP_LOG_EMERG);
+  /* VERIF_LOG_DEBUG=1: every log statement is formatted (the debug dump of a malformed option
+   * list walks the PDU a second time), the text is discarded */
+  if (getenv("VERIF_LOG_DEBUG")) {
+    coap_set_log_handler(quiet_log);
+    coap_set_log_level(COAP_LOG_DEBUG);
+  } else
+    coap_set_log_level(COAP_LOG_EMERG);
   while (next_case(stdin)) {
     if (vntok == 0) { puts(""); continue; }
     if (!strcmp(vtok[0], "c01")) c01();
-    else if (!strcmp(vtok[0], "c03")) c03();
+    else if (!strcmp(vtok[0], "c03") || !strcmp(vtok[0], "c02")) c03();
     else if (!strcmp(vtok[0], "optparse")) optparse();
     else if (!strcmp(vtok[0], "optenc")) optenc();
     else if (!strcmp(vtok[0], "optrt")) optrt();
